@@ -27,14 +27,17 @@ struct Snap {
   std::vector<EnvList> envs;                // [0] = none; then the tuning variables the test suite loads this snapshot with
   // process-local state
   bool extracted = false, listed = false;
-  std::string dir, inner;                   // extraction directory, the (single) directory found inside the tarball
+  std::string dir, inner;                   // private tree, the (single) directory found inside the tarball
+  std::string master, minner, innername;    // the shared read-only master copy (loads without removal read it directly)
+  bool use_private = true;                  // which of the two the next loads read
   std::vector<std::string> removable;       // relative to `inner`, sorted
   std::vector<uint32_t> sysidx;             // indices of removable paths under sys/devices/system
   uint64_t entries = 0, last_use = 0;
   bool has_fsroot() const { return kind != "x86"; }
   bool has_cpuid() const { return kind != "linux"; }
-  std::string fsroot() const { return kind == "linux" ? inner : inner + "/fsroot"; }
-  std::string cpuid() const { return kind == "x86" ? inner : inner + "/cpuid"; }
+  const std::string &base() const { return use_private ? inner : minner; }
+  std::string fsroot() const { return kind == "linux" ? base() : base() + "/fsroot"; }
+  std::string cpuid() const { return kind == "x86" ? base() : base() + "/cpuid"; }
   std::string sysprefix() const { return kind == "linux" ? "sys/devices/system/" : "fsroot/sys/devices/system/"; }
 };
 
@@ -122,9 +125,9 @@ std::string ensure_master(const Snap &s) {
   return extract_to(s, m) ? m : "";   // the lock holder died
 }
 
-// private tree + removable list in one walk
-bool link_tree(const std::string &src, const std::string &dst, const std::string &rel, Snap &s, bool list) {
-  if (mkdir(dst.c_str(), 0700) < 0 && errno != EEXIST) return false;
+// one walk of a master tree: either list the removable paths (no write at all) or build the private tree of hard links
+bool walk_tree(const std::string &src, const std::string &dst, const std::string &rel, Snap &s, bool list) {
+  if (!list && mkdir(dst.c_str(), 0700) < 0 && errno != EEXIST) return false;
   std::vector<std::pair<std::string, int>> ents;   // (name, 1 directory / 2 file or symlink / 0 other)
   DIR *dir = opendir(src.c_str()); if (!dir) return false;
   while (struct dirent *e = readdir(dir)) {
@@ -137,9 +140,9 @@ bool link_tree(const std::string &src, const std::string &dst, const std::string
   std::string a = src + "/", d = dst + "/", r = rel.empty() ? "" : rel + "/"; size_t al = a.size(), dl = d.size(), rl = r.size();
   for (auto &en : ents) {
     const std::string &n = en.first; a.resize(al); a += n; d.resize(dl); d += n; r.resize(rl); r += n;
-    s.entries++;
-    if (en.second == 1) { if (list && !rel.empty() && !isdigit((unsigned char)n.back())) s.removable.push_back(r.substr(r.find('/') + 1)); if (!link_tree(a, d, r, s, list)) return false; }   // numbered instance directories are guaranteed by the kernel
-    else if (en.second == 2) { if (link(a.c_str(), d.c_str()) < 0) return false; if (list && !rel.empty()) s.removable.push_back(r.substr(r.find('/') + 1)); }
+    if (!list) s.entries++;
+    if (en.second == 1) { if (list && !isdigit((unsigned char)n.back())) s.removable.push_back(r); if (!walk_tree(a, d, r, s, list)) return false; }   // numbered instance directories are guaranteed by the kernel
+    else if (en.second == 2) { if (list) s.removable.push_back(r); else if (link(a.c_str(), d.c_str()) < 0) return false; }
   }
   return true;
 }
@@ -148,27 +151,37 @@ const uint64_t CACHE_ENTRIES = 200000;   // directory entries of private trees k
 
 void evict(Snap &s) { if (!s.extracted) return; remove_tree(s.dir); s.extracted = false; }
 
-bool ensure_extracted(Snap &s) {
-  s.last_use = ++g_use_clock;
-  if (s.extracted) return true;
-  std::string m = ensure_master(s);
-  if (m.empty()) { fprintf(stderr, "hwsim: cannot extract %s\n", s.tarball.c_str()); return false; }
-  Timing tm("link", s.name);
-  std::string kd = s.kind == "x86+linux" ? "x86linux" : s.kind;
-  s.dir = std::string(scratch_dir()) + "/snap/" + kd + "/" + s.name;
-  remove_tree(s.dir); mkdirs(s.dir.substr(0, s.dir.rfind('/')));
-  bool list = !s.listed; if (list) { s.removable.clear(); s.sysidx.clear(); }
-  s.entries = 0;
-  // the single directory inside the tarball (its name may differ from the tarball's) is the snapshot; removable paths are relative to it
-  if (!link_tree(m, s.dir, "", s, list)) { fprintf(stderr, "hwsim: cannot link %s (%s)\n", s.name.c_str(), strerror(errno)); remove_tree(s.dir); return false; }
-  std::string found; for (auto &n : list_dir(s.dir)) if (is_dir(s.dir + "/" + n) && found.empty()) found = n;
+// master copy present, the directory inside the tarball detected (its name may differ from the tarball's), removable paths listed
+bool ensure_listed(Snap &s) {
+  if (s.listed && is_dir(s.minner)) return true;
+  s.master = ensure_master(s);
+  if (s.master.empty()) { fprintf(stderr, "hwsim: cannot extract %s\n", s.tarball.c_str()); return false; }
+  std::string found; for (auto &n : list_dir(s.master)) if (is_dir(s.master + "/" + n) && found.empty()) found = n;
   if (found.empty()) { fprintf(stderr, "hwsim: no directory inside %s\n", s.tarball.c_str()); return false; }
-  s.inner = s.dir + "/" + found; s.extracted = true;
-  if (list) {
+  s.innername = found; s.minner = s.master + "/" + found;
+  if (!s.listed) {
+    Timing tm("list", s.name);
+    s.removable.clear(); s.sysidx.clear();
+    if (!walk_tree(s.minner, "", "", s, true)) return false;
     std::sort(s.removable.begin(), s.removable.end());
     std::string pre = s.sysprefix(); if (s.has_fsroot()) for (size_t i = 0; i < s.removable.size(); i++) if (s.removable[i].rfind(pre, 0) == 0) s.sysidx.push_back((uint32_t)i);
     s.listed = true;
   }
+  return true;
+}
+
+// the private tree (needed as soon as a path is removed)
+bool ensure_extracted(Snap &s) {
+  s.last_use = ++g_use_clock;
+  if (!ensure_listed(s)) return false;
+  if (s.extracted) return true;
+  Timing tm("link", s.name);
+  std::string kd = s.kind == "x86+linux" ? "x86linux" : s.kind;
+  s.dir = std::string(scratch_dir()) + "/snap/" + kd + "/" + s.name;
+  remove_tree(s.dir); mkdirs(s.dir);
+  s.entries = 0; s.inner = s.dir + "/" + s.innername;
+  if (!walk_tree(s.minner, s.inner, "", s, false)) { fprintf(stderr, "hwsim: cannot link %s (%s)\n", s.name.c_str(), strerror(errno)); remove_tree(s.dir); return false; }
+  s.extracted = true;
   // bounded cache: least recently used trees go first
   for (;;) {
     uint64_t tot = 0; Snap *old = nullptr;
@@ -252,6 +265,40 @@ Dump memccs_normalised(const Dump &d) {
   return n;
 }
 
+// WF of a freshly loaded snapshot topology; the class names the clause, whether paths were removed, and - for histories recorded as
+// known findings - the specific shape that tripped it
+std::string wf_hint(const Dump &d, const std::string &clause) {
+  if (clause.find("hwloc__check_children_cpusets:!prev_empty") != std::string::npos || clause.find("hwloc__check_children_cpusets:prev_first_<_first") != std::string::npos) {
+    // a memory-only Group (NUMA node whose CPUs were all dropped after it was inserted by cpuset) sitting before siblings that have CPUs
+    for (auto &kv : d.objs) { const ObjRec &p = kv.second; bool seen_empty_memgroup = false;
+      for (uint64_t cg : p.kids[0]) { const ObjRec *c = d.find(cg); if (!c) continue; if (c->ccs.empty()) { if (c->type == HWLOC_OBJ_GROUP && !c->kids[1].empty()) seen_empty_memgroup = true; } else if (seen_empty_memgroup) return ".cpuless_numa_group_not_last"; } }
+  }
+  if (clause.rfind("wf.set_inclusion", 0) == 0) {
+    // the NUMA node the core adds when discovery found none: it carries the root's sets but is attached below the deepest object that has the
+    // root's cpuset, whose complete_cpuset is smaller when disallowed/offline CPUs lie outside that object
+    const ObjRec *root = d.find(d.root); unsigned nn = 0; const ObjRec *n = nullptr;
+    for (auto &kv : d.objs) if (kv.second.type == HWLOC_OBJ_NUMANODE) { nn++; n = &kv.second; }
+    if (root && nn == 1 && n->parent != d.root) { const ObjRec *p = d.find(n->parent); if (p && n->cs == root->cs && n->ccs == root->ccs && p->cs == root->cs && p->ccs != root->ccs && n->cs.subset_of(p->cs) && n->ns.subset_of(p->ns) && n->cns.subset_of(p->cns)) return ".lone_numa_node_with_root_complete_cpuset_below_root"; }
+  }
+  if (clause.rfind("wf.set_inclusion", 0) == 0) {
+    // I/O locality Group (hwloc_find_insert_io_parent_by_complete_cpuset) over CPUs that are in the complete cpuset but have no PU object:
+    // hwloc_obj_add_children_sets() finds no child, the Group keeps NULL nodesets
+    for (auto &kv : d.objs) { const ObjRec &o = kv.second; if (o.type == HWLOC_OBJ_GROUP && o.attr.find(" kind=1000 ") != std::string::npos && o.kids[0].empty() && o.cs.empty() && !o.ccs.empty() && o.ns.empty() && o.cns.empty()) return ".io_group_over_cpus_without_pu"; }
+  }
+  if (clause.rfind("wf.filtered_type", 0) == 0 && d.filters[HWLOC_OBJ_GROUP] == HWLOC_TYPE_FILTER_KEEP_NONE) {
+    // Knights Landing sub-NUMA clusters: the Linux back-end inserts the "Cluster" Group (DDR + MCDRAM) without asking the Group filter
+    bool other = false, knl = false;
+    for (auto &kv : d.objs) { const ObjRec &o = kv.second; int f = d.filters[o.type]; if (f != HWLOC_TYPE_FILTER_KEEP_NONE) continue; if (o.type == HWLOC_OBJ_GROUP && o.has_subtype && o.subtype == "Cluster" && o.attr.find(" kind=100 ") != std::string::npos) knl = true; else other = true; }
+    if (knl && !other) return ".knl_snc_cluster_group";
+  }
+  return "";
+}
+void snapshot_wf(World &w, hwloc_topology_t t, const char *own, const std::string &tag, const Snap &s, const std::string &what, Dump *out = nullptr) {
+  Dump d; take_dump(t, d, DUMP_FULL); std::string e = wf_check(t, d); if (out) *out = d; if (e.empty()) return;
+  std::string clause = e.substr(0, e.find(": "));
+  viol(w, own, clause + "." + tag + wf_hint(d, clause), "%s %s/%s is not well formed (%s): %s", what.c_str(), s.kind.c_str(), s.name.c_str(), tag.c_str(), e.c_str());
+}
+
 std::vector<std::string> comps_of(const Snap &s) {
   if (s.kind == "linux") return {"linux,stop"};
   if (s.kind == "x86") return {"x86,stop"};
@@ -260,7 +307,8 @@ std::vector<std::string> comps_of(const Snap &s) {
 
 Spec spec_of(Snap &s, const Op &o) {
   Spec L; L.s = &s; std::vector<std::string> cs = comps_of(s); L.comp = cs[o.u("comp") % cs.size()];
-  L.filt = o.s("filt", ""); if (L.filt.size() > HWLOC_OBJ_TYPE_MAX) L.filt.resize(HWLOC_OBJ_TYPE_MAX);
+  L.filt = o.s("filt", ""); if (!L.filt.empty() && L.filt[0] == 'f') L.filt.erase(0, 1);   // "f" + one char per type: never a number for the runner's integer simplification
+  if (L.filt.size() > HWLOC_OBJ_TYPE_MAX) L.filt.resize(HWLOC_OBJ_TYPE_MAX);
   unsigned long allowed = HWLOC_TOPOLOGY_FLAG_INCLUDE_DISALLOWED | HWLOC_TOPOLOGY_FLAG_IMPORT_SUPPORT | HWLOC_TOPOLOGY_FLAG_NO_DISTANCES | HWLOC_TOPOLOGY_FLAG_NO_MEMATTRS | HWLOC_TOPOLOGY_FLAG_NO_CPUKINDS;
   if (L.comp.find("linux") != std::string::npos) allowed |= HWLOC_TOPOLOGY_FLAG_THISSYSTEM_ALLOWED_RESOURCES;   // FSROOT sources only
   L.flags = (unsigned long)o.u("flags") & allowed; L.rdperm = o.u("rdperm"); L.env = (unsigned)o.u("env");
@@ -281,6 +329,7 @@ void reload_untouched(World &w, const Spec &L, const char *ctx) {
 }  // namespace
 
 size_t snapshot_count() { return snaps().size(); }
+const char *snapshot_kind(size_t i) { return i < snaps().size() ? snaps()[i].kind.c_str() : ""; }
 
 bool ops_snapshot(World &w, const Op &o) {
   Run &r = *w.run;
@@ -288,7 +337,7 @@ bool ops_snapshot(World &w, const Op &o) {
   if (o.kind == "snap_load") {
     if (all.empty()) { r.ev("snap_load: no snapshot found"); return true; }
     Snap &s = all[o.u("snap") % all.size()];
-    if (!ensure_extracted(s)) { r.ev("snap_load: snapshot not available"); r.count("snap_unavailable"); return true; }
+    if (!ensure_listed(s)) { r.ev("snap_load: snapshot not available"); r.count("snap_unavailable"); return true; }
     Timing tm("snap_load", s.name + " check=" + o.s("check") + " filt=" + o.s("filt"));
     Spec L = spec_of(s, o); unsigned check = (unsigned)o.u("check");
     unsigned nrem = (unsigned)(o.u("nrem") % 41); if (s.removable.empty()) nrem = 0;
@@ -296,6 +345,8 @@ bool ops_snapshot(World &w, const Op &o) {
     const char *own = c01 ? "C01" : "C18";
     r.count(std::string("probe.snap_kind_") + (s.kind == "linux" ? "linux" : s.kind == "x86" ? "x86" : "x86linux"));
     // removal set: nrem indices into the removable list, from the seed
+    s.use_private = nrem > 0 || o.has("paths");   // an intact snapshot is read from the master copy (nothing is ever written there)
+    if (s.use_private && !ensure_extracted(s)) { r.ev("snap_load: snapshot not available"); r.count("snap_unavailable"); return true; }
     Stash st(s); Rng g(o.u("rs")); Fnv rh; unsigned moved = 0;
     std::vector<size_t> draws; for (unsigned i = 0; i < nrem; i++) draws.push_back((size_t)(g.next() % s.removable.size()));
     if (o.has("paths") && !c01 && !s.removable.empty()) {   // explicit removal set (hand-written / minimised replays): comma-separated indices into the removable list
@@ -320,6 +371,7 @@ bool ops_snapshot(World &w, const Op &o) {
       return true;
     }
     r.count("probe.snap_load_ok");
+    snapshot_wf(w, t1, own, tag, s, "the topology loaded from");
     Dump d1; readonly_battery(w, t1, own, tag, "a snapshot loaded successfully into a topology that is not well formed", o.u("rs"), &d1);
     std::string text1 = d1.text();
     if (text1.find(scratch_dir()) != std::string::npos) { hostdep = true; r.count("harness.scratch_path_in_dump"); }
@@ -348,7 +400,7 @@ bool ops_snapshot(World &w, const Op &o) {
       if (rc3 != 0) r.count("probe.snap_other_view_load_failed");
       else {
         Dump d3; take_dump(t3, d3, DUMP_FULL);
-        { std::string e = wf_check(t3, d3); if (!e.empty()) viol(w, "C18", e.substr(0, e.find(": ")) + "." + tag, "the %s view of %s/%s: %s", (O.flags & 1) ? "INCLUDE_DISALLOWED" : "default", s.kind.c_str(), s.name.c_str(), e.c_str()); }
+        { std::string e = wf_check(t3, d3); if (!e.empty()) { std::string cl = e.substr(0, e.find(": ")); viol(w, "C18", cl + "." + tag + wf_hint(d3, cl), "the %s view of %s/%s: %s", (O.flags & 1) ? "INCLUDE_DISALLOWED" : "default", s.kind.c_str(), s.name.c_str(), e.c_str()); } }
         const Dump &def = (L.flags & HWLOC_TOPOLOGY_FLAG_INCLUDE_DISALLOWED) ? d3 : d1, &inc = (L.flags & HWLOC_TOPOLOGY_FLAG_INCLUDE_DISALLOWED) ? d1 : d3;
         std::set<unsigned> ipu, inuma; for (auto &kv : inc.objs) { if (kv.second.type == HWLOC_OBJ_PU) ipu.insert(kv.second.os_index); if (kv.second.type == HWLOC_OBJ_NUMANODE) inuma.insert(kv.second.os_index); }
         for (auto &kv : def.objs) {
@@ -390,27 +442,44 @@ bool ops_snapshot(World &w, const Op &o) {
     // exhaustive sweep of a finite fault space: all single / pairwise removals under sys/devices/system of a small snapshot
     std::vector<Snap *> fs; for (auto &x : all) if (x.has_fsroot()) fs.push_back(&x);
     if (fs.empty()) { r.ev("snap_enum: no snapshot found"); return true; }
-    Snap &s = *fs[o.u("snap") % fs.size()];
-    if (!ensure_extracted(s)) { r.ev("snap_enum: snapshot not available"); return true; }
-    uint64_t n = s.sysidx.size();
-    if (n == 0 || n >= 400) { r.ev("snap_enum %s/%s: %llu removable paths under sys/devices/system, not enumerated", s.kind.c_str(), s.name.c_str(), (unsigned long long)n); r.count("enum_not_small"); return true; }
-    r.count("enumspace." + s.name + "." + std::to_string(n));   // the size of the space, for the evidence (checks.py)
     bool pairs = o.s("which", "single") == "pair";
-    uint64_t total = pairs ? n * (n - 1) / 2 : n, count = o.u("count", 50); if (count < 1) count = 1; if (count > 1000) count = 1000;
-    uint64_t nchunks = (total + count - 1) / count, from = (o.u("from") % nchunks) * count, to = std::min(total, from + count);
+    uint64_t count = o.u("count", 50); if (count < 1) count = 1; if (count > 1000) count = 1000;
+    auto small = [](const Snap &x) { return x.listed && !x.sysidx.empty() && x.sysidx.size() < 400; };
+    auto space = [&](const Snap &x) { uint64_t n = x.sysidx.size(); return pairs ? n * (n - 1) / 2 : n; };
+    Snap *sp = nullptr; uint64_t lchunk = 0;
+    if (o.has("snap")) {   // one named snapshot (hand-written plans)
+      sp = fs[o.u("snap") % fs.size()];
+      if (!ensure_listed(*sp)) { r.ev("snap_enum: snapshot not available"); return true; }
+      if (!small(*sp)) { r.ev("snap_enum %s/%s: %zu removable paths under sys/devices/system, not enumerated", sp->kind.c_str(), sp->name.c_str(), sp->sysidx.size()); r.count("enum_not_small"); return true; }
+      lchunk = o.u("from") % ((space(*sp) + count - 1) / count);
+    } else {   // `from` indexes the chunks of all small snapshots, concatenated in list order: uniform over the whole finite fault space
+      for (Snap *x : fs) if (!x->listed && !ensure_listed(*x)) { r.ev("snap_enum: snapshot not available"); return true; }   // one-time listing per worker process
+      uint64_t total_chunks = 0; for (Snap *x : fs) if (small(*x)) { total_chunks += (space(*x) + count - 1) / count; r.count("enumspace." + x->name + "." + std::to_string(x->sysidx.size())); }
+      if (!total_chunks) { r.ev("snap_enum: no small snapshot"); return true; }
+      uint64_t c = o.u("from") % total_chunks;
+      for (Snap *x : fs) if (small(*x)) { uint64_t nc = (space(*x) + count - 1) / count; if (c < nc) { sp = x; lchunk = c; break; } c -= nc; }
+    }
+    sp->use_private = true; if (!ensure_extracted(*sp)) { r.ev("snap_enum: snapshot not available"); return true; }
+    Snap &s = *sp; uint64_t n = s.sysidx.size(), total = space(s), from = lchunk * count, to = std::min(total, from + count);
+    if (o.has("snap")) r.count("enumspace." + s.name + "." + std::to_string(n));   // the size of the space, for the evidence (checks.py)
     Spec L = spec_of(s, o); L.rdperm = 0; if (L.comp.find("linux") == std::string::npos) L.comp = comps_of(s)[0];
     // unrank `from` into (i, j), i < j
     uint64_t i = 0, j = 0; if (pairs) { uint64_t k = from; while (k >= n - 1 - i) { k -= n - 1 - i; i++; } j = i + 1 + k; }
     Fnv res; uint64_t failed = 0, ok = 0;
+    std::string setname = pairs ? "enumP-" : "enumS-"; for (char c : s.name) setname += isalnum((unsigned char)c) ? c : '_';
     for (uint64_t k = from; k < to; k++) {
       Stash st(s); unsigned moved = 0;
-      if (pairs) { moved += st.remove(s.removable[s.sysidx[i]]); moved += st.remove(s.removable[s.sysidx[j]]); } else moved += st.remove(s.removable[s.sysidx[k]]);
+      std::string what = "the topology loaded after removing {";
+      if (pairs) { moved += st.remove(s.removable[s.sysidx[i]]); moved += st.remove(s.removable[s.sysidx[j]]); what += s.removable[s.sysidx[i]] + ", " + s.removable[s.sysidx[j]]; } else { moved += st.remove(s.removable[s.sysidx[k]]); what += s.removable[s.sysidx[k]]; }
+      what += "} (element " + std::to_string(k) + ") from";
       r.count("fault.path_removed", moved);
       hwloc_topology_t t = nullptr; int rc = load_snapshot(w, L, &t);
       if (rc != 0 && rc != -1) viol0(w, "C18", "snap.return_value", "hwloc_topology_load returned %d", rc);
-      if (rc == 0) { Topos T{r}; T.add(t); Dump d; readonly_battery(w, t, "C18", "removed", "a snapshot loaded successfully into a topology that is not well formed", mix2(o.u("rs"), k), &d); res.u64(d.hash()); ok++; r.distinct("state", mix2(mix2(spec_hash(L), k + (pairs ? 1ULL << 40 : 0)), d.hash())); }
+      if (rc == 0) { Topos T{r}; T.add(t); Dump d; snapshot_wf(w, t, "C18", "removed", s, what, &d);
+        // every single removal gets the full read-only battery; of the pairs a seeded eighth does (the others: return value + WF), which keeps the sweep of the quadratic space affordable
+        if (!pairs || mix2(o.u("rs"), k) % 8 == 0) { readonly_battery(w, t, "C18", "removed", "a snapshot loaded successfully into a topology that is not well formed", mix2(o.u("rs"), k)); r.count("probe.enum_full_battery"); } res.u64(d.hash()); ok++; r.distinct("state", mix2(mix2(spec_hash(L), k + (pairs ? 1ULL << 40 : 0)), d.hash())); }
       else { failed++; res.u64(~0ULL); }
-      r.distinct(pairs ? "enum_pair" : "enum_single", mix2(hash_str(s.name), k));
+      r.distinct(setname, k);   // per snapshot: the evidence compares the number of distinct elements executed with the size of the space
       if (pairs) { if (++j >= n) { i++; j = i + 1; } }
     }
     if (failed) reload_untouched(w, L, "snap_enum");
